@@ -6,6 +6,11 @@ ROOT = os.path.dirname(os.path.dirname(os.path.abspath(__file__)))
 
 # id -> (category, technique, level text, level note, design ref)
 CLAIMED = {
+    "C04": ("exploration",
+            "round-trip PBT: independent entropy *encoder* (prefix + rANS + LZ77 + cluster maps + Lehmer permutations) with generated code descriptions -> jxl_coding::Decoder; exact values, exact bit count, final-state check; negative cases",
+            "Generated-input search over code descriptions (every histogram header form, integer configs, clusterings, LZ77 parameters) and symbol sequences; the decoder must return exactly the encoded sequence, consume exactly the written bits and accept the final ANS state; wrong final states and cluster holes must be rejected.",
+            "Trusted: jxlref::entropy (encoder written from ISO/IEC 18181-1 Annex C / RFC 7932). A mistake shared by my encoder and the decoder would go unnoticed; the alias table, hybrid-integer and LZ77 distance maps are written from the definition, not from the decoder's code.",
+            "DESIGN.md §4 C04"),
     "C10": ("exploration",
             "model-based PBT: generated box layouts x chunkings vs expected event list (proptest over choice sequences, shrinking)",
             "Generated-input search: box layouts (all size forms, jxlc/jxlp splits, raw and brob aux boxes, ten ill-formed constructions) and chunkings are generated; the parser's event stream must equal an independently written model and ill-formed layouts must be rejected for every feed pattern. Exploration is the right level: the property quantifies over unbounded layouts/chunkings and the oracle is exact.",
